@@ -28,6 +28,7 @@ func init() {
 	register("C04", checkC04)
 	register("C13", checkC13)
 	register("C07", checkC07)
+	register("C08", checkC08)
 }
 
 func main() {
